@@ -1,5 +1,5 @@
 (** C04 — only a record's owner can change it or release its assets. *)
-From FM Require Import Auth Reentrant CallSeq.
+From FM Require Import Auth Reentrant CallSeq ReentrantDeep.
 
 (** [op_initiator o] is the account that sends operation [o] (the transaction sender, or the
     user who asks an honest token contract to send).  [honest_op o] excludes only a direct call
@@ -69,6 +69,13 @@ Theorem C04_no_wallet_decrease_with_reentry : forall w o prog a,
   nondecr w (fst (rstep w o prog)) a.
 Proof. exact rstep_others_nondecreasing. Qed.
 Print Assumptions C04_no_wallet_decrease_with_reentry.
+
+(** ... and nested to any depth (model/ReentryDeep.v): [reaction_not_by a] — nothing; one reaction
+    after another; a call not initiated by [a] during which the hostile contract again reacts that way. *)
+Theorem C04_no_wallet_decrease_with_deep_reentry : forall w o k a,
+  op_initiator o <> Some a -> reaction_not_by a k -> a <> self_addr w -> nondecr w (fst (gstep k w o)) a.
+Proof. exact gstep_others_nondecreasing. Qed.
+Print Assumptions C04_no_wallet_decrease_with_deep_reentry.
 
 (** Under every interleaving (proofs/CallSeq.v): along any sequence of successful marketplace
     calls none of which acts for account [a] ([foreign a]: not sent by [a], no hook call naming
